@@ -67,7 +67,7 @@ PROPS["C19"] = {
                "history_with_device_read_errors", "overlong_packet_with_reserved_bit", "receiver_object_also_sends"],
     "components": REAL_LINK + ["harness: counting global allocator with per-allocation domain tags (SUT while inside a ross-protocol call, SIM in devices/harness); realloc modelled as allocate-copy-free"],
     "assumptions": COMMON_ASSUMPTIONS + [
-        "bounds: between polls live <= fresh + 4 KiB + 96 B x A, A = largest frame count announced by any start frame taken since the last boundary (model-free upper bound on the packet in flight); after Ok(_) or Err(BuilderError(_)) live <= fresh; no single allocation during a poll above max(4 KiB, 96 B x A, 4 x returned payload)",
+        "bounds: between polls live <= fresh + 4 KiB + 96 B x A, A = largest frame count announced by any start frame taken since the last boundary (model-free upper bound on the packet in flight); after Ok(_) or Err(BuilderError(_)) live <= fresh; no single allocation during a poll above max(1 KiB, 96 B x A, 4 x returned payload)",
         "runs in which the receiver panics or blocks are C06's subject and are counted as foreign, not as C19 violations",
         "growth of the link object during its own send calls is set aside up to 64 B + 4 x the wire size of the largest packet sent so far (a reused transmit buffer is not receiver memory)",
     ],
